@@ -1,7 +1,8 @@
 """Extractor plug-in for C17: the parts of the code <-> text conversions that tools/extract.py's
 table reader does not cover.
 
-  * `impl FromStr for Type` / `Class`: scrutinee of the `match`, and the RFC 3597 fallback arm
+  * `impl FromStr for Type` / `Class`: scrutinee of the `match` (is the text normalised with
+    `to_ascii_uppercase` before the `Caseless("…")` arms are tried, or not), and the RFC 3597 fallback arm
     `text.get(0..N).map_or(false, |prefix| prefix.eq_ignore_ascii_case("WORD"))`,
     `text[M..].parse::<u16>()`;
   * `impl FromStr for Qtype` / `Qclass`: scrutinee, and the fallback arm `_ => T::from_str(text).map(Into::into)`;
@@ -18,27 +19,34 @@ def register(extra, mod):
         return re.sub(r"\s+", "", s)
 
     def fromstr_block(repo, rel, ty):
+        """normalised text of the impl block, and how the scrutinee of the mnemonic `match` is
+        normalised: "to_ascii_uppercase" for `let upper = text.to_ascii_uppercase(); match
+        Caseless(&upper) {`, "none" for `match Caseless(text) {` (a tuple-struct pattern compares
+        the inner string exactly, so without normalisation the arms are case-sensitive)."""
         src = mod.strip_comments(mod.read(repo, rel))
-        blk = mod.block_after(src, r"\bimpl\s+FromStr\s+for\s+" + ty + r"\s*\{", f"{rel}: impl FromStr for {ty}")
-        m = re.search(r"\bmatch\s+(Caseless\(text\))\s*\{", blk)
-        if not m:
-            raise mod.ExtractError(f"{rel}: FromStr for {ty}: scrutinee is not `Caseless(text)`")
-        return norm(blk)
+        blk = norm(mod.block_after(src, r"\bimpl\s+FromStr\s+for\s+" + ty + r"\s*\{", f"{rel}: impl FromStr for {ty}"))
+        if "letupper=text.to_ascii_uppercase();matchCaseless(&upper){" in blk:
+            how = "to_ascii_uppercase"
+        elif "matchCaseless(text){" in blk and "upper" not in blk:
+            how = "none"
+        else:
+            raise mod.ExtractError(f"{rel}: FromStr for {ty}: scrutinee of the mnemonic match not understood")
+        return blk, how
 
     def generic(repo, rel, ty):
-        b = fromstr_block(repo, rel, ty)
+        b, how = fromstr_block(repo, rel, ty)
         m = re.search(r'_=>\{iftext\.get\(0\.\.(\d+)\)\.map_or\(false,\|prefix\|prefix\.eq_ignore_ascii_case\("([^"]*)"\)\)'
                       r'\{text\[(\d+)\.\.\]\.parse::<u16>\(\)\.map\(Self::from\)\.or\(Err\("[^"]*"\)\)\}else\{Err\("[^"]*"\)\}\}', b)
         if not m:
             raise mod.ExtractError(f"{rel}: FromStr for {ty}: RFC 3597 fallback arm not understood")
-        return int(m.group(1)), m.group(2), int(m.group(3))
+        return int(m.group(1)), m.group(2), int(m.group(3)), how
 
     def delegate(repo, rel, ty):
-        b = fromstr_block(repo, rel, ty)
+        b, how = fromstr_block(repo, rel, ty)
         m = re.search(r"_=>([A-Za-z]+)::from_str\(text\)\.map\(Into::into\),?\}", b)
         if not m:
             raise mod.ExtractError(f"{rel}: FromStr for {ty}: delegating fallback arm not understood")
-        return m.group(1)
+        return m.group(1), how
 
     def bound(repo, rel, header, field, item):
         src = mod.strip_comments(mod.read(repo, rel))
@@ -54,18 +62,22 @@ def register(extra, mod):
                               "src/message/rcode.rs", "src/rr/rr_type.rs"])
         summary = {}
         for lname, rel, ty in [("type", "src/rr/rr_type.rs", "Type"), ("class", "src/class.rs", "Class")]:
-            end, word, start = generic(repo, rel, ty)
+            end, word, start, how = generic(repo, rel, ty)
             out += f"/-- `{rel}`: `impl FromStr for {ty}`, fallback arm: `text.get(0..{end})`, \n"
             out += f"    `prefix.eq_ignore_ascii_case({mod.lean_str(word)})`, `text[{start}..].parse::<u16>()` -/\n"
             out += f"def {lname}ParseGetEnd : Nat := {end}\n"
             out += f"def {lname}ParsePrefix : String := {mod.lean_str(word)}\n"
-            out += f"def {lname}ParseSliceFrom : Nat := {start}\n\n"
-            summary[lname] = [end, word, start]
+            out += f"def {lname}ParseSliceFrom : Nat := {start}\n"
+            out += f"/-- how the text is normalised before the mnemonic arms are tried -/\n"
+            out += f"def {lname}ParseNormalise : String := {mod.lean_str(how)}\n\n"
+            summary[lname] = [end, word, start, how]
         for lname, rel, ty in [("qtype", "src/message/question.rs", "Qtype"), ("qclass", "src/message/question.rs", "Qclass")]:
-            d = delegate(repo, rel, ty)
+            d, how = delegate(repo, rel, ty)
             out += f"/-- `{rel}`: `impl FromStr for {ty}`, fallback arm delegates to `{d}::from_str` -/\n"
-            out += f"def {lname}ParseDelegate : String := {mod.lean_str(d)}\n\n"
-            summary[lname] = d
+            out += f"def {lname}ParseDelegate : String := {mod.lean_str(d)}\n"
+            out += f"/-- how the text is normalised before the mnemonic arms are tried -/\n"
+            out += f"def {lname}ParseNormalise : String := {mod.lean_str(how)}\n\n"
+            summary[lname] = [d, how]
         for lname, rel, header, field in [
             ("opcodeTryFromBound", "src/message/opcode.rs", r"\bimpl\s+TryFrom<u8>\s+for\s+Opcode\s*\{", "value"),
             ("rcodeTryFromBound", "src/message/rcode.rs", r"\bimpl\s+TryFrom<u8>\s+for\s+Rcode\s*\{", "value"),
